@@ -53,7 +53,7 @@ trait Put {
     fn must_refuse(&self, _size: usize) -> bool { false }
     fn cfg_align(&self) -> usize { 1 }
     /// deallocate a pointer the pool never issued: Some(accepted) when the pool has such an entry point
-    fn foreign(&mut self, _kind: u64, _size: usize, _first: Option<usize>) -> Option<bool> { None }
+    fn foreign(&mut self, _kind: u64, _size: usize, _first: Option<usize>, _lowest: Option<usize>) -> Option<bool> { None }
     fn scope_begin(&mut self) -> bool { false }
     fn scope_end(&mut self) {}
     /// the request size the pool actually serves for a request of `size` (fixed-chunk pools ignore the size)
@@ -141,11 +141,12 @@ fn drive(cx: &mut Ctx, cell: &str, cj: &Value, put: &mut dyn Put, ops: &[Vec<u64
             }
             2 => {
                 let size = (b as usize).max(1);
-                match guarded(|| put.foreign(a, size, first)) {
+                let lowest = if lo == usize::MAX { None } else { Some(lo) };
+                match guarded(|| put.foreign(a, size, first, lowest)) {
                     Err(p) => bad!(None, "op {}: deallocating a foreign pointer panicked: {}", n, p),
                     Ok(None) => obs.push(Some(0)),
                     Ok(Some(acc)) => {
-                        if acc && a == 0 { bad!(None, "op {}: a pointer the pool never issued ({} bytes) was accepted by deallocate", n, size); }
+                        if acc && a != 1 { bad!(None, "op {}: a pointer the pool never issued ({} bytes) was accepted by deallocate", n, size); }
                         obs.push(if acc { Some(0) } else { None });
                     }
                 }
@@ -237,9 +238,10 @@ impl Put for LfPut {
     fn window(&self) -> Option<usize> { Some(self.msize) }
     fn must_refuse(&self, size: usize) -> bool { size > self.msize }
     fn cfg_align(&self) -> usize { 8 }
-    fn foreign(&mut self, kind: u64, size: usize, first: Option<usize>) -> Option<bool> {
-        let p = match (kind, first) {
-            (1, Some(f)) => (f - 8 + self.msize) as *mut u8,               // one past the arena under the modelled layout
+    fn foreign(&mut self, kind: u64, size: usize, first: Option<usize>, lowest: Option<usize>) -> Option<bool> {
+        let p = match (kind, first, lowest) {
+            (1, Some(f), _) => (f - 8 + self.msize) as *mut u8,           // one past the arena under the modelled layout (model comparison only)
+            (2, _, Some(l)) => (l + self.msize) as *mut u8,                // lowest address ever issued + capacity: certainly outside the arena
             _ => self.foreign_buf.as_mut_ptr() as *mut u8,
         };
         Some(self.pool.deallocate(NonNull::new(p).unwrap(), size).is_ok())
@@ -496,7 +498,7 @@ fn run_case(cx: &mut Ctx, c: &Value, force: bool) {
                             0 => { cops.push(format!("OAlloc {}", o[1])); exp.push(coq_oz(&r.map(|a| a - first))); }
                             1 => { cops.push(format!("OFree {}", o[1])); exp.push(coq_oz(r)); }
                             2 => { let has_first = ops.iter().zip(obs.iter()).take_while(|(oo, _)| !std::ptr::eq(*oo, o)).any(|(oo, rr)| oo[0] == 0 && rr.is_some());
-                                   let off = if o[1] == 1 && has_first { format!("{}%Z", msize) } else { "(-1)%Z".to_string() };
+                                   let off = if o[1] == 1 && has_first { format!("{}%Z", msize) } else if o[1] == 2 && has_first { format!("{}%Z", msize + 8) } else { "(-1)%Z".to_string() };
                                    cops.push(format!("OForeign {} {}", off, o.get(2).copied().unwrap_or(0).max(1))); exp.push(coq_oz(r)); }
                             _ => {}
                         }
@@ -683,7 +685,7 @@ fn gen_ops(r: &mut Rng, n: u64, classes: &[u64], cap: u64, huge: bool, foreign: 
     for _ in 0..n {
         match r.below(10) {
             x if x < free_bias => ops.push(vec![1, r.below(64)]),
-            9 if foreign && r.chance(1, 3) => ops.push(vec![2, r.below(2), gen_size(r, classes, cap, &focus, false)]),
+            9 if foreign && r.chance(1, 3) => ops.push(vec![2, r.below(3), gen_size(r, classes, cap, &focus, false)]),
             _ => ops.push(vec![0, gen_size(r, classes, cap, &focus, huge), *r.pick(aligns)]),
         }
     }
@@ -702,9 +704,11 @@ fn gen_case(r: &mut Rng, which: u64, bins: &[u64]) -> Value {
         }
         1 => { // fixed capacity
             let preset = *r.pick(&[0u64, 0, 0, 1, 2, 3, 4, 5]);
-            let align = *r.pick(&[8u64, 8, 16, 32, 64]);
-            let mbs = align * *r.pick(&[2u64, 4, 8, 16, 33, 128, 512]);
-            let blocks = *r.pick(&[1u64, 2, 3, 8, 50]);
+            let align = *r.pick(&[8u64, 8, 16, 32, 64, 4, 1, 3]);
+            // mostly well-formed configurations; some whose block size cannot hold the 16-byte block header or is not a
+            // multiple of the alignment (these must be refused by the constructor, not produce misaligned blocks)
+            let mbs = if r.chance(1, 8) { *r.pick(&[8u64, 12, 24, 100, 1000, 0]) } else { align * *r.pick(&[2u64, 4, 8, 16, 33, 128, 512]) };
+            let blocks = *r.pick(&[1u64, 2, 3, 8, 50, 0]);
             let cap = match preset { 1 | 5 => 4096, 2 => 1024, 3 => 65536, 4 => 8192, _ => mbs };
             let cl: Vec<u64> = classes_for("", bins).into_iter().filter(|&c| c <= cap).chain([cap, cap / 2]).collect();
             let n = r.range(3, 60);
